@@ -193,9 +193,9 @@ def s5(ck, an):
             "nr_contracts": {"Broker.holdings_quantity"}, "margins": {"Broker.holdings_margins"}}
     nodes = {}
     for i, a in enumerate(c.args):
-        nodes[ctor.params[1 + i]] = a
+        nodes[ctor.params[1 + i]] = deref(fa, a)[0]          # through temporaries
     for k in c.keywords:
-        nodes[k.arg] = k.value
+        nodes[k.arg] = deref(fa, k.value)[0]
     for k, w in want.items():
         e = nodes.get(k)
         tg = []
@@ -255,10 +255,10 @@ def s6(ck, an):
 
         # the returned value, by value id (temporaries, `x /= s`, statement-form conditionals all normalise away)
         rc_ = [r for r in returns_in(fa) if r.value is not None]
-        if len(rc_) != 1:
-            ck.fail("SIB", "S6.reward-formula", subj, f.loc, f"{c.name}.calculate has {len(rc_)} value returns", construct="return")
+        ret = fa.sym.ev(rc_[0].value, fa.node_of(rc_[0]).id) if len(rc_) == 1 else function_value(fa)      # several returns: folded into one conditional value
+        if ret is None:
+            ck.fail("SIB", "S6.reward-formula", subj, f.loc, f"{c.name}.calculate does not return a value on every path", construct="return")
             continue
-        ret = fa.sym.ev(rc_[0].value, fa.node_of(rc_[0]).id)
         txt = ret.key().replace(envp + ".", "env.")
         flat = txt
         ck.check(LAST in flat and NOW in flat, "SIB", "S6.reward-reads-recorded-pre-nlv-and-current-nlv", subj, f.loc,
@@ -331,6 +331,14 @@ def s7(ck, an):
             swapped = specv(fa, f"({rname}.context_post if {flag} else {rname}.context_pre).{field}", at).key()
             ok_sel = got == want
             ok_field = got in (want, swapped) or got.endswith(f".{field}")
+        elif loop is None:
+            # comprehension form: {time: (entry.context_pre if flag else entry.context_post).field for time, entry in self._rebalancing.items()}
+            comps = [fa.sym.canon(x) for x in walk_function(fa.f.node) if isinstance(x, ast.DictComp)]
+            wc = specv(fa, "{t: (r.context_pre if %s else r.context_post).%s for t, r in self._rebalancing.items()}" % (flag, field)).key()
+            sc = specv(fa, "{t: (r.context_post if %s else r.context_pre).%s for t, r in self._rebalancing.items()}" % (flag, field)).key()
+            ok_sel = wc in comps
+            ok_field = ok_sel or sc in comps
+            stores = [(None, None, c_) for c_ in comps]
         ck.check(ok_sel, "GUARD", f"S7.{field}-pre-post-selection", fa.f.short, fa.f.loc, "before_rebalancing selects context_pre, otherwise context_post",
                  f"the value reported per entry is {[g for _, _, g in stores]}: the pre/post snapshot selection is swapped or missing", construct="if before_rebalancing: context = rebalancing.context_pre else: context_post")
         ck.check(ok_field, "DEP", f"S7.{field}-field", fa.f.short, fa.f.loc, f"the series reports context.{field} keyed by the entry's time", f"the series does not report context.{field} per time",
